@@ -111,7 +111,7 @@ Section WithClen.
   Proof.
     intros Hown Htg Hrun Hwf Hk Hg.
     destruct (crash_anywhere clen clen_pos owner2 owner tgid0 sched tr k Hown Htg Hrun Hwf Hk Hg)
-      as (evs & Hr & Hkeys & Hrec & Hnn).
+      as (evs & Hr & Hkeys & Hrec & Hnn & _ & _).
     unfold recovered_files, recovered, committed, unchecked. rewrite Hr. cbn [fst snd].
     split; [reflexivity|]. split; [exact Hrec|]. split; [exact Hkeys|].
     intros Hn. apply Hnn, no_pnewb_spec, Hn.
